@@ -53,6 +53,8 @@ def _ccell(v):
     # numbers are compared by value: index() may hand a row the equal-valued cell (2 vs 2.0) of another row of
     # the same index group, which does not alter any row under ==
     if isinstance(v, (int, float)) and not isinstance(v, bool): return ("num", v)
+    try: hash(v)
+    except TypeError: return (type(v).__name__, repr(v))           # unhashable cells (coba's own tests use lists)
     return (type(v).__name__, v)
 def _crow(row): return tuple(_ccell(v) for v in row)
 
@@ -413,8 +415,28 @@ def _features(step, cols, indexes, rows, depth, kinds, Missing):
     return {"indexed": idx, "sig": sig, "sigkey": (tuple(ops), step["form"], idx, len(conds), miss, nonearg, dup, depth > 1, ck)}
 
 # ------------------------------------------------------------------------------------------ entry points
+def _repo_tests_under_contracts(ctx):
+    """coba's own Table/Result tests with the contracts on (thorough tier, shard 0)"""
+    import subprocess, sys, os, json, tempfile
+    from vf.core import REPO
+    out = tempfile.mktemp(prefix="vf-c17-pytest-", suffix=".json")
+    env = dict(os.environ, VF_C17_COUNTERS=out)
+    r = subprocess.run([sys.executable, "-m", "pytest", "-q", "-p", "no:cacheprovider", "-p", "vf.c17_pytest", "--timeout=600",
+                        os.path.join(REPO, "coba/tests/test_results_core.py"), os.path.join(REPO, "coba/tests/test_environments_result.py")],
+                       cwd=REPO, env=env, capture_output=True, text=True)
+    try:
+        d = json.load(open(out)); os.remove(out)
+    except Exception:
+        ctx.note_inconclusive(f"repo-tests-under-contracts produced no counters: {r.stdout[-300:]}"); return
+    ctx.count("repo-tests.contract.index.rows_preserved", d["counters"].get("contract.index.rows_preserved", 0))
+    ctx.count("repo-tests.contract.insert.columns_equal_length", d["counters"].get("contract.insert.columns_equal_length", 0))
+    if "ContractBroken" in r.stdout:
+        ctx.violation("contract-broken-under-repo-tests", r.stdout[-1500:], {"part": "repo-tests"})
+    ctx.extra["repo_tests_under_contracts"] = r.stdout.strip().splitlines()[-1] if r.stdout.strip() else ""
+
 def run_shard(ctx):
     _install_contracts()
+    if ctx.tier == "thorough" and ctx.shard == 0: _repo_tests_under_contracts(ctx)
     i = 0
     while i < ctx.n and ctx.time_left() > 0:
         spec = gen_case(ctx.rng)
